@@ -239,6 +239,25 @@ def check(ctx):
                 if not np.array_equal(q, a.position):
                     C.issue('fresh-agent-moved-by-own-limits', 'oracle', rp)
             C.case(key=('build', kind, na, nv, nd, tuple(lb), tuple(ub)), nontrivial=na > 1 and nv > 1, kind=f'build-{kind}')
+        # ---- bounds handed over as NumPy arrays of a narrow type whose width `ub - lb` is not representable in that type:
+        #      the initial population still lies in the declared box
+        for dt, lo_, hi_ in ((np.int8, -100, 100), (np.int16, -30000, 30000), (np.int32, -2000000000, 2000000000),
+                             (np.float16, -60000.0, 60000.0), (np.int64, -2 ** 62 - 5, 2 ** 62 + 5), (np.uint8, 3, 250)):
+            for nv in (1, 3):
+                lba, uba = np.array([lo_] * nv, dtype=dt), np.array([hi_] * nv, dtype=dt)
+                rp = dict(how='build', kind='search', n_agents=6, n_vars=nv, n_dims=1, lb=[float(lo_)] * nv, ub=[float(hi_)] * nv, dtype=np.dtype(dt).name)
+                np.random.seed(C.rng.randrange(1 << 30))
+                try:
+                    sp = L['SearchSpace'](n_agents=6, n_variables=nv, n_iterations=2, lower_bound=lba, upper_bound=uba)
+                except Exception as ex:
+                    C.issue('build-raised', 'oracle', rp, error=type(ex).__name__ + ': ' + str(ex)[:80])
+                    continue
+                for a in sp.agents:
+                    p = np.asarray(a.position, dtype=float)
+                    if np.any(p < float(lo_)) or np.any(p > float(hi_)) or not np.all(np.isfinite(p)):
+                        C.issue('initial-position-infeasible', 'oracle', rp, pos=p.tolist())
+                        break
+                C.case(key=('build-dtype', np.dtype(dt).name, nv), nontrivial=True, kind='build-narrow-dtype')
         # ---- validation: typed errors
         bad = [dict(n_agents=np.float64(2.5)), dict(n_agents=np.float32(2.0)), dict(n_variables=np.float64(2.0)),
                dict(n_iterations=np.float64(2.5)), dict(n_iterations=np.float64(3.0)),
